@@ -520,9 +520,13 @@ class AppTracker(object):
             self.small_delivered.inc((sender_side, payload))
             if rec["delivered"] > 1:
                 self.c.inc("double_deliveries")
-                if self.classify_double(conn, seqnum) is None:
+                mech_s = self.classify_double(conn, seqnum)
+                k_acc = (id(conn), (id(sender), int(seqnum)))
+                if k_acc in self.double_at_accept:
+                    mech_s = self.double_at_accept[k_acc]          # the verdict of the moment of acceptance
+                if mech_s is None:
                     self._window_miss(conn, seqnum)
-                self.report("C04", self.classify_double(conn, seqnum) or "delivered-twice",
+                self.report("C04", mech_s or "delivered-twice",
                             "short message %s (message seq %d, retry %d) delivered %d times to the %s application" % (
                                 short(payload), int(seqnum), rec["retry"], rec["delivered"], side))
             return
